@@ -127,7 +127,9 @@ def run(ctx):
     max_lines = 10 ** 6 if ctx.thorough else 45
     for path, isa in c04.shipped_kernels():
         n = len(_body(path, isa))
-        if n > max_lines:
+        # quick: small bodies plus two bodies above the 50-line threshold of the multi-process search
+        big_ok = os.path.basename(path) in ("gs.s.csx.gcc.s", "add.s.tx2.clang.s")
+        if n > max_lines and not big_ok:
             continue
         for a in (archs_x86 if isa == "x86" else archs_a64):
             for flags in ((False, True) if ctx.thorough else (False,)):
